@@ -6,7 +6,7 @@ import ast
 from vlib.core import AnalysisError, Report
 from vlib.flow import enclosing_tries, parent_map
 from vlib.grammar import EMPTY, GrammarModel
-from vlib.match import FI, X, calls, closure, deref, facts, has_call, nodes
+from vlib.match import FI, X, calls, closure, closure_fi, deref, facts, has_call, nodes
 from vlib.nodemodel import NodeModel, snakelize
 from vlib.srcindex import ClassInfo, FuncInfo, SourceIndex, attr_chain, const_str, unparse, walk_no_nested
 from vlib.typer import Typer
@@ -324,7 +324,7 @@ def rule_d(rep: Report, idx: SourceIndex, nm: NodeModel) -> None:
 	in_finally = any(any(p_ is x for t in ast.walk(ex.node) if isinstance(t, ast.Try) for s_ in t.finalbody for x in ast.walk(s_)) for p_ in pops)
 	r.check(in_finally, 'exec-stack-popped-on-failure', ex.where, 'Procedure.exec pops its result stack only when the run succeeds: after a nested exec raised and its caller recovered, the outer run continues on the dead stack and builds its result from the failed run\'s leftovers (`a + b` -> Sum[\'c\', \'*\', \'b\']); pop in a finally block')
 	res = meth['__result']
-	r.check(any(isinstance(n, ast.Assert) and 'len(self.__stack) == 1' in unparse(n) for n in ast.walk(res.node)), 'result-size-one', res.where, '__result no longer asserts that exactly one result is left')
+	r.check(any(isinstance(c_, ast.Compare) and len(c_.ops) == 1 and isinstance(c_.ops[0], ast.Eq) and {unparse(c_.left), unparse(c_.comparators[0])} == {'len(self.__stack)', '1'} for n in ast.walk(FI(res)) if isinstance(n, ast.Assert) for c_ in ast.walk(n.test)), 'result-size-one', res.where, '__result no longer asserts that exactly one result is left')
 	# pop order (matched over __make_event and the private helpers it calls, on alias-expanded bodies)
 	me = meth['__make_event']
 	cl = closure(me)
